@@ -33,8 +33,53 @@ func reap(pid int) {
 	}
 }
 
+// idmaps: starts in a new user namespace with explicit id mappings of several shapes and with none; one JSON line per start
+// says what was configured, the trace shows what the launcher wrote to uid_map / gid_map.
+func idmaps() {
+	null, _ := os.Open("/dev/null")
+	defer null.Close()
+	type m = syscall.SysProcIDMap
+	euid, egid := os.Geteuid(), os.Getegid()
+	cases := []struct{ u, g []m }{
+		{nil, nil},
+		{[]m{{ContainerID: 0, HostID: 0, Size: 1}}, []m{{ContainerID: 0, HostID: 0, Size: 1}}},
+		{[]m{{ContainerID: 0, HostID: 1000, Size: 1}, {ContainerID: 1, HostID: 100000, Size: 65536}}, []m{{ContainerID: 0, HostID: 3000, Size: 2}, {ContainerID: 5, HostID: 20000, Size: 10}}},
+		{[]m{{ContainerID: 0, HostID: 0, Size: 4294967295}}, nil},
+		{nil, []m{{ContainerID: 0, HostID: 65534, Size: 1}, {ContainerID: 1, HostID: 1, Size: 1}, {ContainerID: 2, HostID: 2, Size: 1}, {ContainerID: 10, HostID: 1000000, Size: 1000}}},
+		{[]m{{ContainerID: 1000, HostID: 0, Size: 1}}, []m{{ContainerID: 1000, HostID: 0, Size: 1}}},
+		{[]m{{ContainerID: 0, HostID: 7, Size: 1}, {ContainerID: 1, HostID: 8, Size: 1}, {ContainerID: 2, HostID: 9, Size: 1}, {ContainerID: 3, HostID: 10, Size: 1}, {ContainerID: 4, HostID: 11, Size: 1}},
+			[]m{{ContainerID: 0, HostID: 123456789, Size: 10}}},
+	}
+	js := func(l []m) string {
+		if l == nil {
+			return "null"
+		}
+		s := "["
+		for i, x := range l {
+			if i > 0 {
+				s += ","
+			}
+			s += fmt.Sprintf("[%d,%d,%d]", x.ContainerID, x.HostID, x.Size)
+		}
+		return s + "]"
+	}
+	for i, c := range cases {
+		r := forkexec.Runner{Args: []string{hx.Target(), "exit", "0"}, Env: []string{}, Files: []uintptr{null.Fd(), null.Fd(), null.Fd()},
+			CloneFlags: unix.CLONE_NEWUSER, UIDMappings: c.u, GIDMappings: c.g}
+		mark(fmt.Sprintf("idmap%d", i))
+		pid, err := r.Start()
+		mark(fmt.Sprintf("end:idmap%d", i))
+		reap(pid)
+		fmt.Printf("{\"case\":%d,\"uid\":%s,\"gid\":%s,\"euid\":%d,\"egid\":%d,\"started\":%v,\"err\":%q}\n", i, js(c.u), js(c.g), euid, egid, pid > 0, fmt.Sprint(err))
+	}
+}
+
 func main() {
 	hx.Init()
+	if len(os.Args) > 1 && os.Args[1] == "idmaps" {
+		idmaps()
+		return
+	}
 	scratch := os.Getenv("VERIF_SCRATCH")
 	null, _ := os.Open("/dev/null")
 	defer null.Close()
